@@ -200,9 +200,23 @@ func RPCShape(rpc *pb.RPC, nm *hnet.Names) M {
 			ext = M{"present": true, "test": e.GetTestExtension(), "partial": e.GetPartialMessages()}
 		}
 	}
+	// the partial-messages extension RPC (added for X04): parts metadata rendered as the list of set bits
+	part := M{"present": false, "t": "", "g": "", "hasMsg": false, "msg": "", "hasMeta": false, "meta": []int{}}
+	if pm := rpc.Partial; pm != nil {
+		bits := []int{}
+		for i, b := range pm.PartsMetadata {
+			for j := 0; j < 8; j++ {
+				if b&(1<<uint(j)) != 0 {
+					bits = append(bits, i*8+j)
+				}
+			}
+		}
+		part = M{"present": true, "t": pm.GetTopicID(), "g": string(pm.GroupID), "hasMsg": len(pm.PartialMessage) > 0, "msg": string(pm.PartialMessage),
+			"hasMeta": len(pm.PartsMetadata) > 0, "meta": bits}
+	}
 	return M{"subs": subs, "msgs": msgs, "graft": graft, "prune": prune, "ihave": ihave, "iwant": iwant,
 		"idontwant": idw, "ext": ext, "hasPartial": rpc.Partial != nil, "hasTestExt": rpc.TestExtension != nil,
-		"bytes": rpc.Size()}
+		"partial": part, "bytes": rpc.Size()}
 }
 
 // SortedKeys returns the sorted keys of a map with string keys.
